@@ -4,7 +4,8 @@ Nothing here imports xdeps.  A table model is {"index": col, "cols": {col: [valu
 
 row spec   [name, count|None, offset]           (count-th occurrence, negative from the end, + offset)
 selector   ["int", i] ["ints", [i..]] ["mask", [bool..]] ["names", [rowspec-string..]] ["mixed", [int|str..]]
-           ["regex", pattern, count|None, offset] ["span", a|None, b|None, col|None]  (a, b row specs)
+           ["regex", pattern, count|None, offset] ["span", a|None, b|None, None|index col]  (a, b row specs)
+           ["colspan", va|None, vb|None, other string column]
            ["range", lo|None, hi|None, col] ["none"] ["slice", start, stop, step] ["empty"]
 """
 import re
@@ -127,15 +128,16 @@ def ref_select(tm, sel):
         if any(not 0 <= i < n for i in rows):
             raise Outside("shift leaves the table")
         return rows
-    if kind == "span":
+    if kind == "span":            # a:b[:index column] - inclusive span between two addressed rows
         _, a, b, col = sel
-        if col is None or col == tm["index"]:
-            ia = None if a is None else ref_row(names, a)
-            ib = None if b is None else ref_row(names, b) + 1
-        else:
-            cv = list(tm["cols"][col])
-            ia = None if a is None else _first(cv, a)
-            ib = None if b is None else _first(cv, b) + 1
+        ia = None if a is None else ref_row(names, a)
+        ib = None if b is None else ref_row(names, b) + 1
+        return list(range(n))[slice(ia, ib)]
+    if kind == "colspan":         # va:vb:'othercol' - first rows where that (string) column equals va / vb
+        _, va, vb, col = sel
+        cv = list(tm["cols"][col])
+        ia = None if va is None else _first(cv, va)
+        ib = None if vb is None else _first(cv, vb) + 1
         return list(range(n))[slice(ia, ib)]
     if kind == "range":
         _, lo, hi, col = sel
@@ -175,11 +177,11 @@ def to_python(sel, sep=("::", "<<", ">>")):
         return spec_str([sel[1], sel[2], sel[3]], *sep)
     if kind == "span":
         _, a, b, col = sel
-        if col is not None and col != "__index__" and a is not None and not isinstance(a, list):
-            return slice(a, b, col)
-        sa = None if a is None else (spec_str(a, *sep) if isinstance(a, list) else a)
-        sb = None if b is None else (spec_str(b, *sep) if isinstance(b, list) else b)
+        sa = None if a is None else spec_str(a, *sep)
+        sb = None if b is None else spec_str(b, *sep)
         return slice(sa, sb, col)
+    if kind == "colspan":
+        return slice(sel[1], sel[2], sel[3])
     if kind == "range":
         return slice(sel[1], sel[2], sel[3])
     raise ValueError(sel)
@@ -205,6 +207,6 @@ def render(sel):
         a = None if sel[1] is None else spec_str(sel[1])
         b = None if sel[2] is None else spec_str(sel[2])
         return f"rows[{a!r}:{b!r}" + (f":{sel[3]!r}]" if sel[3] is not None else "]")
-    if kind == "range":
+    if kind in ("range", "colspan"):
         return f"rows[{sel[1]!r}:{sel[2]!r}:{sel[3]!r}]"
     return repr(sel)
